@@ -25,7 +25,7 @@ def run(ctx):
     cc.model_check(ctx, "c03_j1", invariants=["ChildlessFixedKept", "FixedOnlyMinimallyPushed",
                                               "FixedNeverMovedByLsq", "Exact"],
                    N=4, T=2 if q else 3, iters=[0, 1, 2] if q else [0, 1, 2, 3], eps=[0, 1], max_edges=4)
-    insts = cc.generate(ctx, "c03_j2", N=3 if q else 4, T=2, iters=[0, 1, 2], eps=[0, 1], max_edges=3 if q else 4)
+    insts = cc.generate(ctx, "c03_j2", N=3 if q else 4, T=2, iters=[0, 1, 2], eps=[0, 1, 2], max_edges=3 if q else 4)
     insts = [i for i in insts if any(any(e[0] == f for e in i["edges"]) for f in i["fixed"])]
     cap = 1200 if q else 20000
     ctx.exhaustive = len(insts) <= cap
@@ -37,9 +37,10 @@ def run(ctx):
     k = 2 if q else 6
     corpus = inputs.historical(ctx.seed, k=k) + inputs.internal_samples(ctx.seed, k=k) \
         + inputs.contemporaneous(ctx.seed, k=2 if q else 5)
+    corpus += [inputs.flagged(c) for c in corpus[: 2 * k]]
     corpus += [inputs.scaled(corpus[0], 1e9), inputs.scaled(corpus[k], 1e-4)]
     settings = [{}, {"constr_iterations": 0}, {"constr_iterations": 5, "min_branch_length": 0.5},
-                {"rescaling_intervals": 1}]
+                {"rescaling_intervals": 1}, {"min_branch_length": 200.0}]
     if not q:
         settings += [{"constr_iterations": 100}, {"min_branch_length": 10.0, "constr_iterations": 0},
                      {"max_iterations": 1}]
